@@ -1122,3 +1122,138 @@ Theorem tb_all : forall s, TBp s.
 Proof. intros s. apply tb_of_ml. apply (ml_all (size s)). lia. Qed.
 
 End RoundTrip.
+
+(* ------------------------------------------------------------------ the theorems *)
+Theorem pratt_roundtrip_gen : forall bp, wf_bp bp = true ->
+  forall maxb maxdim s d c rest,
+  printable s = true -> need s <= d -> fst c + needb s <= maxb -> closerL rest = true ->
+  parse bp maxb maxdim d c 0 (print s ++ rest) = Some (desugar s, rest).
+Proof.
+  intros bp Hwf maxb maxdim s d c rest Hp Hn Hb Hc.
+  apply (tb_all bp Hwf maxb maxdim s d c 0 0 rest); auto using wf_thr0, closerL_refusedL, closerL_followL.
+  lia.
+Qed.
+
+Lemma gen_bp_wf : wf_bp gen_bp = true /\ gen_rows_complete = true.
+Proof. split; vm_compute; reflexivity. Qed.
+
+Theorem pratt_roundtrip_top : forall s,
+  printable s = true -> need s <= top_depth -> needb s <= max_brackets ->
+  parse_top gen_bp (print s ++ [TVarEnd]) = Some (desugar s).
+Proof.
+  intros s Hp Hn Hb. unfold parse_top.
+  rewrite (pratt_roundtrip_gen gen_bp (proj1 gen_bp_wf) max_brackets max_dim s top_depth (0, 0) [TVarEnd]); auto.
+Qed.
+
+(* every way of writing an expression (redundant parentheses anywhere, `not in` / `is not`
+   or the explicit negation) parses to the same tree *)
+Theorem pratt_roundtrip_decorated : forall bp, wf_bp bp = true ->
+  forall maxb maxdim e s d c rest,
+  desugar s = e ->
+  printable s = true -> need s <= d -> fst c + needb s <= maxb -> closerL rest = true ->
+  parse bp maxb maxdim d c 0 (print s ++ rest) = Some (e, rest).
+Proof. intros. subst e. apply pratt_roundtrip_gen; auto. Qed.
+
+Theorem pratt_redundant_parens : forall bp, wf_bp bp = true ->
+  forall maxb maxdim s d c rest,
+  printable s = true -> S (need s) <= d -> fst c + needb s <= maxb -> closerL rest = true ->
+  parse bp maxb maxdim d c 0 (TLParen :: print s ++ TRParen :: rest) = Some (desugar s, rest).
+Proof.
+  intros bp Hwf maxb maxdim s d c rest Hp Hn Hb Hc.
+  pose proof (pratt_roundtrip_gen bp Hwf maxb maxdim (SParen s) d c rest) as H.
+  cbn [print raw desugar printable need needb] in H. unfold paren in H. cbn [app] in H.
+  rewrite <- app_assoc in H. cbn [app] in H. apply H; auto.
+Qed.
+
+(* ---- from the AST: embed e is the surface tree without sugar or parentheses *)
+Fixpoint esize (e : expr) : nat :=
+  let osz := fun (o : option expr) => match o with Some x => esize x | None => 0 end in
+  match e with
+  | EConst _ | EVar _ => 1
+  | EAttr e _ _ => S (esize e)
+  | EItem e i _ => S (esize e + esize i)
+  | ESlice e a b c _ => S (esize e + osz a + osz b + osz c)
+  | EUn _ e => S (esize e)
+  | EBin _ a b => S (esize a + esize b)
+  | ETest e _ kw | EFilter e _ kw =>
+      S (esize e + list_sum (map (fun p : str * expr => match p with (_, v) => esize v end) kw))
+  | ECall _ kw => S (list_sum (map (fun p : str * expr => match p with (_, v) => esize v end) kw))
+  | ETern c t f => S (esize c + esize t + esize f)
+  | EArr items => S (list_sum (map (fun p : bool * expr => match p with (_, v) => esize v end) items))
+  | EMap es => S (list_sum (map (fun p : option mkey * expr => match p with (_, v) => esize v end) es))
+  | EComp e _ _ t c => S (esize e + esize t + osz c)
+  end.
+
+Lemma esize_kw : forall (kw : list (str * expr)) k v,
+  In (k, v) kw ->
+  esize v <= list_sum (map (fun p : str * expr => match p with (_, v) => esize v end) kw).
+Proof.
+  induction kw as [|[n x] r IH]; intros k v H; [cbn in H; tauto|].
+  cbn [In] in H. cbn [map list_sum fold_right]. unfold list_sum in IH.
+  destruct H as [H|H]; [inversion H; subst; lia|]. specialize (IH k v H). lia.
+Qed.
+
+Lemma dkw_embed : forall (kw : list (str * expr)),
+  (forall k v, In (k, v) kw -> desugar (embed v) = v) ->
+  map (fun p : str * sx => match p with (k, v) => (k, desugar v) end)
+      (map (fun p : str * expr => match p with (k, v) => (k, embed v) end) kw) = kw.
+Proof.
+  induction kw as [|[n x] r IH]; intros H; [reflexivity|].
+  cbn [map]. rewrite (H n x) by (left; reflexivity). rewrite IH; [reflexivity|].
+  intros k v Hin. apply (H k v). right. exact Hin.
+Qed.
+
+Lemma printable_kw_embed : forall (kw : list (str * expr)) k v,
+  forallb (fun p : str * sx => match p with (_, v) => printable v end)
+          (map (fun p : str * expr => match p with (k, v) => (k, embed v) end) kw) = true ->
+  In (k, v) kw -> printable (embed v) = true.
+Proof.
+  induction kw as [|[n x] r IH]; intros k v H Hin; [cbn in Hin; tauto|].
+  cbn [map forallb] in H. apply andb_prop in H. destruct H as [H1 H2].
+  destruct Hin as [E|Hin]; [inversion E; subst; exact H1|]. eapply IH; eauto.
+Qed.
+
+Lemma desugar_embed_n : forall n e, esize e <= n -> printable (embed e) = true -> desugar (embed e) = e.
+Proof.
+  induction n as [|n IH]; intros e Hs Hp.
+  - destruct e; cbn [esize] in Hs; lia.
+  - destruct e; cbn [esize] in Hs; cbn [embed printable desugar] in *; try discriminate.
+    + reflexivity.
+    + reflexivity.
+    + apply andb_prop in Hp. destruct Hp as [_ Hp]. rewrite IH; auto. lia.
+    + apply andb_prop in Hp. destruct Hp as [Hp Hpi]. apply andb_prop in Hp. destruct Hp as [_ Hp].
+      rewrite !IH; auto; lia.
+    + rewrite IH; auto. lia.
+    + apply andb_prop in Hp. destruct Hp as [Hp Hpb]. apply andb_prop in Hp. destruct Hp as [_ Hp].
+      rewrite !IH; auto; lia.
+    + repeat (apply andb_prop in Hp; destruct Hp as [Hp ?]).
+      rewrite IH; auto; try lia. rewrite dkw_embed; [reflexivity|].
+      intros k v Hin. apply IH; [pose proof (esize_kw _ _ _ Hin); lia|]. eapply printable_kw_embed; eauto.
+    + repeat (apply andb_prop in Hp; destruct Hp as [Hp ?]).
+      rewrite IH; auto; try lia. rewrite dkw_embed; [reflexivity|].
+      intros k v Hin. apply IH; [pose proof (esize_kw _ _ _ Hin); lia|]. eapply printable_kw_embed; eauto.
+    + repeat (apply andb_prop in Hp; destruct Hp as [Hp ?]).
+      rewrite dkw_embed; [reflexivity|].
+      intros k v Hin. apply IH; [pose proof (esize_kw _ _ _ Hin); lia|]. eapply printable_kw_embed; eauto.
+    + repeat (apply andb_prop in Hp; destruct Hp as [Hp ?]). rewrite !IH; auto; lia.
+Qed.
+
+Lemma desugar_embed : forall e, printable (embed e) = true -> desugar (embed e) = e.
+Proof. intros e. apply (desugar_embed_n (esize e)). lia. Qed.
+
+(* for every expression tree of the modelled grammar: print with exactly the parentheses the
+   documented table demands, parse, get the tree back *)
+Theorem pratt_roundtrip_ast : forall bp, wf_bp bp = true ->
+  forall maxb maxdim e d c rest,
+  printable (embed e) = true -> need (embed e) <= d -> fst c + needb (embed e) <= maxb ->
+  closerL rest = true ->
+  parse bp maxb maxdim d c 0 (print (embed e) ++ rest) = Some (e, rest).
+Proof.
+  intros. rewrite <- (desugar_embed e) at 2 by assumption. apply pratt_roundtrip_gen; auto.
+Qed.
+
+(* ---- the binding powers of parser.rs against the documentation *)
+Lemma bp_matches_docs : bp_matches_docs_b gen_bp BpTables.doc_prec_rows = true.
+Proof. vm_compute. reflexivity. Qed.
+Lemma doc_levels_match : doc_levels_b BpTables.doc_prec_rows = true.
+Proof. vm_compute. reflexivity. Qed.
